@@ -19,7 +19,7 @@ LEVEL = 'exploration'
 RULE = ('systematic schedule enumeration: for each chosen element class X (quick: 16 classes covering simpleContent extension, '
         'complexContent extension, nested attribute groups, anonymous types; thorough: one class per complex type), thread A '
         'does its first use of X (construct with attributes, add the children of a shortest valid word, validate, serialise) '
-        'and is pre-empted once, at every executed library line k in turn (all k; a stride keeps it <= 1500 points per class '
+        'and is pre-empted once, at every executed library line k in turn (all k; a stride keeps it <= 900 points per class and family '
         'in quick), while thread B runs its own first use of X (family same) or of a class sharing attributes with X (family '
         'shared) to completion in the gap; each k in a child forked from a pristine parent. Both threads\' results '
         '(serialisation text or exception class) are compared with the single-threaded result from a pristine child. Plus a '
@@ -75,6 +75,22 @@ def scenario_spec(cn):
     if sb:
         spec['values'] = [f for f in ref.valid_forms(sb) if ref.valid(sb, f) and f == f.strip() and f][:3] or ['']
     return spec
+
+
+def incomplete_spec(spec):
+    from musicxml.util.core import convert_to_xml_class_name  # noqa: F401
+    t = ref.eltype(spec['name'])
+    if t not in ref.ALL:
+        return None
+    req = {a[0] for a in ref.attr_table(t) if a[2]}
+    out = dict(spec)
+    if req:
+        out['attrs'] = [(an, lex) for an, lex in spec['attrs'] if an not in req]
+        return out
+    if spec['children']:
+        out['children'] = []
+        return out
+    return None
 
 
 def _cands(lex):
@@ -272,6 +288,11 @@ def run_shard(shard, tier, seed):
     p = partner_of(cn)
     if p:
         families.append(('shared', scenario_spec(p)))
+    # B builds an INCOMPLETE document of the same class (required attributes withheld, or no children): alone it is refused,
+    # and it must be refused in every schedule as well
+    inc = incomplete_spec(specA)
+    if inc is not None:
+        families.append(('incomplete-B', inc))
     windows = collections.Counter()
     for fam, specB in families:
         refA = in_child(lambda: list(do_scenario(specA)))
@@ -282,7 +303,7 @@ def run_shard(shard, tier, seed):
             continue
         n = base[2]
         c['lines_in_first_use:' + fam] = n
-        limit = 1500 if tier == 'quick' else 6000
+        limit = 900 if tier == 'quick' else 6000
         stride = max(1, -(-n // limit))
         ks = list(range(1, n + 1, stride))
         for k in ks:
